@@ -35,6 +35,10 @@ CLAIMED["C09"] = ("same encoding as C08 (vcheck/ignoremodel.py): range test of s
     "bounded symbolic model checking: NotInRange iff node_start < range.start or node_end > range.end for present bounds (Skip first); out-of-range statements are pushed untouched with their semicolon; NotInRange only reaches the block-only visitors",
     "trusts rustc's MIR printer, mirsym, z3; positions are full_moon byte offsets; 'inside the range = whole-file result' is outside", "5/C08-C09")
 
+CLAIMED["C06"] = ("integer slice of format_table_constructor from the MIR (mirsym, real Shape methods inlined) executed on an arbitrary input spacing and on the canonical output spacing; z3 (cvc5 integer-encoding fallback) decides stability; two-pass replay",
+    "bounded symbolic model checking of the layout decision that reads the input layout: for <=3 fields, widths < 2^16, any shape/indent/column width: canonical-separator inputs are a fixed point, multi-line is a fixed point, the arithmetic cannot panic; arbitrary separator spacing is NOT stable (known finding F5)",
+    "trusts rustc's MIR printer, mirsym, z3/cvc5; all other trial-format heuristics and the blank-line fold are outside the claim", "5/C06")
+
 NOT_YET = {}
 
 NA = {
